@@ -36,6 +36,7 @@ LR_GRAMMARS = [
     ('lr-direct', "start: e $ ;\n\ne: e '+' t | t ;\n\nt: t '*' f | f ;\n\nf: '(' ~ e ')' | /\\d/ ;\n"),
     ('lr-alias', "start: e $ ;\n\ne: x '+' t | t ;\n\nx: e ;\n\nt: /\\d/ ;\n"),
     ('lr-named', "start: e $ ;\n\ne: l:e op:'-' r:t | t ;\n\nt: /\\d/ | '(' @:e ')' ;\n"),
+    ('lr-shared-prefix-cut', "start: e $ ;\n\ne: e '+' t '*' | e '+' t | t ;\n\nt: '(' ~ e ')' | /\\d/ ;\n"),
 ]
 MEMO_GRAMMARS = [
     ('retry', "start: x 'a' | x 'b' | x ;\n\nx: 'a' y | 'b' ;\n\ny: 'b' | () ;\n"),
